@@ -6,7 +6,7 @@
 EXTENDS Naturals, Sequences, FiniteSets, SequencesExt, Json, IOUtils, TLC
 CONSTANTS MaxLen, NTexts
 \* t1: the model; t2: an edited model; t3..: near-identical variants of t1 (leading blank line, trailing blank
-\* lines, CRLF, a trailing space) which a careless cache-key derivation could conflate with t1
+\* lines, a trailing space) which a careless cache-key derivation could conflate with t1
 TextIds == {"t" \o ToString(k) : k \in 1..NTexts}
 EvictIds == {"t1", "t3"} \cap TextIds
 Ops == {[a |-> "run", text |-> t, flag |-> f] : t \in TextIds, f \in BOOLEAN}
